@@ -9,7 +9,7 @@ use serde::{Deserialize, Serialize};
 
 use crate::cfg::{AvailableValueMap, MathOp};
 use crate::parser::{
-    CsrImm, HasRegisterSets, InstructionProperties, LabelString, LabelStringToken,
+    CsrImm, HasRegisterSets, InstructionProperties, LabelString, LabelStringToken, LoadType,
     RegisterProperties,
 };
 use crate::parser::{ParserNode, Register};
@@ -277,6 +277,10 @@ fn rule_expand_address_for_load(
 ) {
     if let Some(store_reg) = node.writes_to() {
         if let ParserNode::Load(load) = node {
+            // Only a word load reads back the whole value that was stored
+            if !matches!(load.inst.get(), LoadType::Lw) {
+                return;
+            }
             if let Some(AvailableValue::OriginalRegisterWithScalar(reg, off)) =
                 available_in.get(load.rs1.get())
             {
